@@ -839,7 +839,7 @@ class Exec:
             if b is not None and f.id not in p.env:
                 return b(e, p)
         # dict/list methods on fields and locals
-        if isinstance(f, ast.Attribute) and f.attr in ('get', 'pop', 'add', 'setdefault', 'remove', 'append', 'items', 'values'):
+        if isinstance(f, ast.Attribute) and f.attr in ('get', 'pop', 'add', 'setdefault', 'remove', 'append', 'items', 'values', 'issubset'):
             r = self.container_method(e, p)
             if r is not NotImplemented:
                 return r
@@ -994,6 +994,8 @@ class Exec:
     def builtin_map(self, e, p):
         f = e.args[0]
         src = self.ev(e.args[1], p)
+        if isinstance(f, ast.Name) and f.id == 'abs' and isinstance(src, SetV) and src.kkind == 'int':
+            return ObjV('mapabs', dict(src=src))
         if not (isinstance(f, ast.Name) and f.id == 'abs' and isinstance(src, ObjV) and src.cls == 'filter'):
             raise Unsupported('map idiom')
         return ObjV('mapabs', dict(src=src))
@@ -1004,6 +1006,16 @@ class Exec:
         absolute value; every root satisfying the predicate has its absolute value in the set."""
         from z3 import ForAll, Exists
         flt = v.attrs['src']
+        if isinstance(flt, SetV):
+            # `set(map(abs, s))` for a set (or other finite collection) of integers: exactly {|x| : x in s}
+            y = Int(f'y!{next(M._cnt)}')
+            has = fresh('absset', ArraySort(I, B))
+            p.pc.append(ForAll([y], has[y] == And(y >= 0, Or(flt.has[y], flt.has[-y])), patterns=[has[y]]))
+            p.pc.append(ForAll([y], Implies(flt.has[y], has[absz(y)]), patterns=[flt.has[y]]))
+            self.assumed_builtins.add('set(map(abs, s)) = {|x| : x in s}')
+            r = SetV(has)
+            self.refresh_ne(r, p)
+            return r
         pred = flt.attrs['pred'].attrs['node']
         src_e = flt.attrs['src']
         # the predicate must be `not self._ref[abs(u)]`-shaped: evaluate its body symbolically on a bound variable
@@ -1065,6 +1077,24 @@ class Exec:
         k0 = fresh('first_key', ks)
         self.assume(p, d.has[k0])
         return NameV(k0) if d.kkind == 'name' else IntV(k0)
+
+    def enumerate_set(self, v, p):
+        """iteration over a set (assumed builtin semantics, listed in the trusted base): some list without repetition of
+        exactly its elements; `idx` is the witness of "every element occurs". The set must not change during the loop
+        (Python raises RuntimeError otherwise): the loop body is checked not to assign the iterated set."""
+        from z3 import ForAll, Function, Int, MultiPattern
+        arr, n = fresh('enum', ArraySort(I, I)), fresh('enum_n')
+        idx = Function(f'enum_idx!{next(M._cnt)}', I, I)
+        k1, k2, l1 = Int('k1!e'), Int('k2!e'), Int('l!e')
+        has = v.has
+        p.pc += [n >= 0,
+                 ForAll([k1, k2], Implies(And(0 <= k1, k1 < k2, k2 < n), arr[k1] != arr[k2]), patterns=[MultiPattern(arr[k1], arr[k2])]),
+                 ForAll([k1], Implies(And(0 <= k1, k1 < n), has[arr[k1]]), patterns=[arr[k1]]),
+                 ForAll([l1], Implies(has[l1], And(0 <= idx(l1), idx(l1) < n, arr[idx(l1)] == l1)), patterns=[has[l1]])]
+        self.assumed_builtins.add('iteration over a set: each element exactly once, in some order')
+        lst = ListV(arr, n)
+        lst.idx = idx
+        return lst
 
     def builtin_sorted(self, e, p):
         """builtin (assumed, listed in the trusted base): sorted(set of ints) is the strictly increasing list of
@@ -1208,6 +1238,10 @@ class Exec:
             v.has = Store(v.has, x, False)
             self.refresh_ne(v, p)
             return IntV(x)
+        if isinstance(v, SetV) and meth == 'issubset' and len(args) == 1 and isinstance(args[0], SetV) and args[0].kkind == v.kkind:
+            from z3 import ForAll
+            x = Int(f'x!sub{next(M._cnt)}')
+            return BoolV(ForAll([x], Implies(v.has[x], args[0].has[x]), patterns=[v.has[x]]))
         if isinstance(v, SetV) and meth == 'add' and len(args) == 1:
             kz = args[0].z if v.kkind == 'name' else zint(args[0], self, p)
             v.has = Store(v.has, self.name_it(p, kz, 'sk'), True)
@@ -1678,6 +1712,7 @@ class Exec:
         S.qfa = If(isnew, Store(old.qfa, kz, If(Q[lvl_], And(qfar(old, lo_), qfar(old, hi_)),
                                                If(A[lvl_], qfar(old, hi_), qfar(old, lo_)))), Store(old.qfa, kz, True))
         S.hl = If(isnew, Store(old.hl, kz, Or(lvl_ == HL, old.hl[al], old.hl[ah])), Store(old.hl, kz, False))
+        S.rt = If(isnew, Store(old.rt, kz, Or(kz == RT, old.rt[al], old.rt[ah])), Store(old.rt, kz, RT == 1))
 
     def delete_node(self, S, old, kz, p, line):
         """Engine rule for removing a `_succ` entry (DESIGN 2.4): ghost in-degree of the children decreases by one per
@@ -1852,6 +1887,12 @@ class Exec:
             elem = lambda iv: IntV(iv)  # noqa
         else:
             seq = self.ev(it, p)
+            if isinstance(seq, SetV) and seq.kkind == 'int' and isinstance(it, ast.Name):
+                for n_ in ast.walk(ast.Module(body=st.body, type_ignores=[])):
+                    if isinstance(n_, ast.Name) and n_.id == it.id:
+                        raise Unsupported(f'loop body mentions the iterated set {it.id}@{st.lineno}')
+                seq = self.enumerate_set(seq, p)
+                p.env['%enum:' + it.id] = seq
             if not isinstance(seq, ListV):
                 raise Unsupported(f'for over {ast.unparse(it)}@{st.lineno}')
             lo_, hi_ = IntVal(0), seq.n
@@ -1869,6 +1910,9 @@ class Exec:
         ph_ = p.fork()
         for v in spec.get('modifies', []):
             ph_.env[v] = IntV(fresh(v))
+        for v in spec.get('modifies_sets', []):
+            ph_.env[v] = SetV(fresh(v + '_has', ArraySort(I, B)))
+            self.refresh_ne(ph_.env[v], ph_)
         for mk in spec.get('modifies_mgr', []):
             key, fields = mk
             ph_.mgrs[key] = State(base=ph_.mgrs[key], modifies=fields)
